@@ -126,6 +126,8 @@ MUTANTS = [
      "                copy_into.symlink_to(relative_to_target)\n\n        except OSError as ex:", "                copy_into.symlink_to(relative_to_target)\n\n        except NotADirectoryError as ex:", ["C03", "C09"]),
     ("revert-D41-sigchld-left-blocked", "utils/sigchld.py",
      "        existing_mask = signal.pthread_sigmask(signal.SIG_UNBLOCK, {signal.SIGCHLD})\n", "        existing_mask = signal.pthread_sigmask(signal.SIG_UNBLOCK, set())\n", ["C09"]),
+    ("revert-D42-member-names-read-as-tar-options", "cli/archive.py",
+     "                \"--\",\n", "", ["C11"]),
     ("loader-no-dup-check", "parsing/task_index.py",
      "                    if dep_identifier in task_deps_set:\n", "                    if dep_identifier in task_deps_set and len(task_deps) > 2:\n", ["C14"]),
 ]
